@@ -257,6 +257,11 @@ class ArgumentInterface(SymbolInterface):
     def __str__(self):
         return f"Argument({self.access})"
 
+    def __eq__(self, other):
+        if type(other) is not type(self):
+            return False
+        return self.access == other.access
+
     def copy(self):
         '''
         :returns: a copy of this object.
